@@ -22,6 +22,13 @@ func Assert_error_Validate(args []value.Value) error {
 		}
 	}
 
+	// response text and custom message are optional
+	for i := 1; i < len(args); i++ {
+		if args[i].Type() != value.StringType {
+			return errors.TypeMismatch(Assert_error_Name, i+1, value.StringType, args[i].Type())
+		}
+	}
+
 	return nil
 }
 
